@@ -332,7 +332,7 @@ theorem step_law (hwf : WF S = true) (hr : RecOk S g r) : (stepRec S T r).LawOn 
           subst he
           simp only [beq_iff_eq] at hl
           subst hl
-          refine ⟨rfl, fun tail => ?_⟩
+          refine ⟨by simp, fun tail => ?_⟩
           have : ¬ bb.length > (bb ++ tail).length := by simp
           simp only [this, if_false, take_append_length]
         · cases he
@@ -483,14 +483,41 @@ theorem step_ne (hwf : WF S = true) (hne : ∀ ty, posSize S ty = true → r.Non
       | _ => simp at he
 
 theorem step_scalar (S : Schema) (T : String → Bytes → Bytes) (r : Rec) : ScalarOk S (stepRec S T r) := by
-  refine ⟨?_, ?_, ?_⟩
-  · intro ty w hw v
-    show typeSizeStep S r ty v = .ok w
-    unfold typeSizeStep
+  refine ⟨?_, ?_, ?_, ?_, ?_⟩
+  · intro ty w hw v n hn
+    replace hn : typeSizeStep S r ty v = .ok n := hn
+    unfold typeSizeStep at hn
     unfold scalarWidth at hw
     cases hf : S.find ty with
     | none => simp [hf] at hw
-    | some t => cases t <;> simp [hf] at hw ⊢ <;> exact hw
+    | some t =>
+      cases t with
+      | int w' s =>
+        simp only [hf, Option.some.injEq] at hw hn
+        cases v <;> simp at hn
+        omega
+      | bytes n' =>
+        simp only [hf, Option.some.injEq] at hw hn
+        cases v with
+        | bytes b =>
+          simp only at hn
+          split at hn
+          · simp only [Except.ok.injEq] at hn; omega
+          · cases hn
+        | _ => simp at hn
+      | enum w' s bw ms =>
+        simp only [hf, Option.some.injEq] at hw hn
+        cases v <;> simp at hn
+        omega
+      | struct d => simp [hf] at hw
+  · intro ty w s hf i
+    show typeSizeStep S r ty (.int i) = .ok w
+    unfold typeSizeStep
+    simp [hf]
+  · intro ty n hf b hb
+    show typeSizeStep S r ty (.bytes b) = .ok n
+    unfold typeSizeStep
+    simp [hf, hb]
   · intro ty w s hf buf
     show decTypeStep S T r ty buf = _
     unfold decTypeStep
